@@ -6,6 +6,7 @@ import (
 	"math/big"
 	"runtime/debug"
 	"strings"
+	"sync"
 
 	"github.com/bronlabs/bron-crypto/pkg/base/curves/k256"
 	"github.com/bronlabs/bron-crypto/pkg/base/nt/num"
@@ -30,14 +31,29 @@ type interactive struct {
 	nMsgs int
 	mode  bitMode
 	idx   idxAlphabet
+	chunk int // edits per execution (default 8)
 	// run executes the protocol; ed may replace the encoding of message m (1-based). stage: "accept", "noop",
 	// "exempt", "ISOLATE:<class>", "PANIC@site|msg", or "<round>:<error>".
 	run func(ed zkEdit, screen bool) (accepted bool, stage string, msgs [][]byte)
+	// admit (optional) evaluates the documented admission rule of the construction; when it reports false the
+	// honest run must be refused
+	admit func() (bool, string)
 }
 
+// zkEdit edits one message of the CURRENT run (errgroup workers may interleave reads of the shared randomness, so the
+// messages of two runs need not be byte-identical; edits are therefore always applied to the run's own message).
+type zkEdit func(msg int, raw []byte) []byte
+
 var (
+	iaMu       sync.Mutex
 	iaRegistry = map[string]*interactive{}
 )
+
+func registerIA(ia *interactive) {
+	iaMu.Lock()
+	iaRegistry[ia.name] = ia
+	iaMu.Unlock()
+}
 
 // step passes one typed message through the edit layer.
 func step[T any](m int, v T, ed zkEdit, screen bool, msgs [][]byte) (T, string) {
@@ -124,7 +140,7 @@ func lpCase(bits, k int) *interactive {
 		}
 		return true, "accept", msgs
 	}
-	iaRegistry[ia.name] = ia
+	registerIA(ia)
 	return ia
 }
 
@@ -190,7 +206,7 @@ func lpdlCase(bits int) *interactive {
 		}
 		return true, "accept", msgs
 	}
-	iaRegistry[ia.name] = ia
+	registerIA(ia)
 	return ia
 }
 
@@ -211,14 +227,24 @@ func (ia *interactive) child(m, idx int) (bool, string) {
 	return acc, st
 }
 
-const iaChunk = 8
-
 // iaBody: choice = protocol x message x chunk of edits.
 func iaBody(ias []*interactive) func(*engine.X) {
 	none := func(int, []byte) []byte { return nil }
 	var honest memo[[][]byte]
 	return func(x *engine.X) {
 		ia := engine.Pick(x, "protocol", ias)
+		if ia.admit != nil {
+			if want, why := ia.admit(); !want {
+				x.Case(ia.name + "/refusal")
+				ok, st, _ := ia.run(none, true)
+				if ok {
+					failf(x, "interactive/admitted", "%s: admitted outside the documented parameters (%s)", ia.name, why)
+				}
+				x.Observe(ia.name, " refused at ", stageKey(st), " (", why, ")")
+				x.Trivial()
+				return
+			}
+		}
 		msgs := honest.get(ia.name, func() [][]byte {
 			ok, st, msgs := ia.run(none, true)
 			if !ok {
@@ -227,11 +253,15 @@ func iaBody(ias []*interactive) func(*engine.X) {
 			return msgs
 		})
 		if len(msgs) == 1 {
-			x.Failf("interactive/complete", "%s: honest interactive run rejected at %s", ia.name, msgs[0])
+			failf(x, "interactive/complete", "%s: honest interactive run rejected at %s", ia.name, msgs[0])
 			return
 		}
 		m := 1 + x.Choose("message", ia.nMsgs)
 		eds := enumerateEdits(msgs[m], ia.mode, ia.idx)
+		iaChunk := ia.chunk
+		if iaChunk == 0 {
+			iaChunk = 8
+		}
 		nChunks := (len(eds) + iaChunk - 1) / iaChunk
 		ch := x.Choose("chunk", nChunks)
 		lo, hi := ch*iaChunk, min((ch+1)*iaChunk, len(eds))
@@ -261,12 +291,12 @@ func iaBody(ias []*interactive) func(*engine.X) {
 			switch {
 			case strings.HasPrefix(st, "CRASH@"):
 				site, rest, _ := strings.Cut(strings.TrimPrefix(st, "CRASH@"), "|")
-				x.Failf("crash@"+site, "%s: the process was TERMINATED by an unrecoverable panic in a library goroutine (in %s) although only message %d was edited (%s): %s", ia.name, site, m, ed.desc, rest)
+				failf(x, "crash@"+site, "%s: the process was TERMINATED by an unrecoverable panic in a library goroutine (in %s) although only message %d was edited (%s): %s", ia.name, site, m, ed.desc, rest)
 			case strings.HasPrefix(st, "PANIC@"):
 				site, rest, _ := strings.Cut(strings.TrimPrefix(st, "PANIC@"), "|")
-				x.Failf("panic@"+site, "%s: interactive run panicked in %s although only message %d was edited (%s): %s", ia.name, site, m, ed.desc, rest)
+				failf(x, "panic@"+site, "%s: interactive run panicked in %s although only message %d was edited (%s): %s", ia.name, site, m, ed.desc, rest)
 			case acc:
-				x.Failf("accepted/interactive/msg"+fmt.Sprint(m), "%s: verifier ACCEPTED although message %d was edited: %s", ia.name, m, ed.desc)
+				failf(x, fmt.Sprintf("accepted/%s/interactive/msg%d/%s@%s", family(ia.name), m, ed.class, genericPath(ed.desc)), "%s: verifier ACCEPTED although message %d was edited: %s", ia.name, m, ed.desc)
 			default:
 				stages[stageKey(st)]++
 			}
